@@ -260,20 +260,43 @@ def _sig_table_first_in_item(case: dict, f: Failure) -> bool:
 _BLOCK_LIKE = _re.compile(r"^[ \t>]*(?:[-*+]|\d{1,9}[.)])(?:[ \t]|$)|^[ \t>]*\|")
 
 
+def tag_and_block_like_paragraph(text: str) -> bool:
+    """Some paragraph (run of non-blank lines) of the text holds a line that starts or ends with a tag/comment delimiter and
+    another line that looks like a list item or table row."""
+    strip = lambda l: _re.sub(r"^[ \t>]*(?:(?:[-*+]|\d{1,9}[.)])[ \t]+)?", "", l)  # noqa: E731
+    para: list[str] = []
+    for l in text.split("\n") + [""]:
+        if l.strip(" \t>"):
+            para.append(l)
+            continue
+        tags = [k for k, a in enumerate(para) if _TAG_EDGE.search(strip(a))]
+        blocks = [k for k, a in enumerate(para) if _BLOCK_LIKE.match(a) and k > 0 or _BLOCK_LIKE.match(strip(a))]
+        if tags and any(b not in tags or len(tags) > 1 for b in blocks):
+            return True
+        para = []
+    return False
+
+
 def _sig_block_like_line_next_to_tag_line(case: dict, f: Failure) -> bool:
-    """Inside one paragraph of the input, a line that starts or ends with a tag delimiter is directly followed or preceded by
-    a line that looks like a list item or table row (there it is paragraph text: a lazy continuation, or a marker that cannot
-    interrupt a paragraph). The tag heuristics keep such a line on its own and set it off by a blank line: it becomes a block."""
+    """Inside one paragraph of the input, a line that starts or ends with a tag delimiter stands with a line that looks like
+    a list item or table row (there it is paragraph text: a lazy continuation, or a marker that cannot interrupt a paragraph).
+    The tag heuristics, switched on for the whole paragraph, keep such a line on its own, unescaped, and set it off from a tag
+    line by a blank line: it becomes a block (or, wrapped, a lone "-" under text: a heading underline)."""
     if case.get("kind", "doc") != "doc":
         return False
-    lines = case["text"].split("\n")
-    strip = lambda l: _re.sub(r"^[ \t>]*(?:(?:[-*+]|\d{1,9}[.)])[ \t]+)?", "", l)  # noqa: E731
-    for a, b in zip(lines, lines[1:]):
-        if not a.strip() or not b.strip():
-            continue
-        if (_TAG_EDGE.search(strip(a)) and _BLOCK_LIKE.match(b)) or (_TAG_EDGE.search(strip(b)) and _BLOCK_LIKE.match(strip(a))):
-            return True
-    return False
+    return tag_and_block_like_paragraph(case["text"])
+
+
+def _sig_closing_tag_leaves_container(case: dict, f: Failure) -> bool:
+    """A closing tag alone on an indented line inside a list item or footnote (a paragraph of its own there): the tag
+    heuristics un-indent every closing-tag-only line, so it leaves its container."""
+    if case.get("kind", "doc") != "doc":
+        return False
+    x, width, semantic = _case_xo(case)
+    closing = r"(?:\{% /|\{# /|\{\{ /|<!-- /).*(?:%\}|#\}|\}\}|-->)"
+    inside = {m.group(1) for m in _re.finditer(r"^[ \t]+(" + closing + r")[ \t]*\\?$", x, _re.M)}
+    out = [l.rstrip("\\") for l in _fmt_c01(x, width, semantic).split("\n")]
+    return any(t in out for t in inside)
 
 
 DECOMPOSE_KEY = "text"  # several recorded findings in one document: see core.sig_hit
@@ -281,6 +304,7 @@ DECOMPOSE_KEY = "text"  # several recorded findings in one document: see core.si
 SIGS = {
     "table_first_block_of_list_item": _sig_table_first_in_item,
     "block_like_line_next_to_tag_line": _sig_block_like_line_next_to_tag_line,
+    "closing_tag_leaves_container": _sig_closing_tag_leaves_container,
     "task_marker_before_hard_break": _sig_task_marker_before_hard_break,
     "escaped_backticks_hide_code_span": _sig_escaped_backticks,
     "closing_tag_alone_after_marker_line": _sig_closing_tag_alone_after_marker,
